@@ -209,10 +209,11 @@ class GenerateWasmVisitor(Visitor.DefaultVisitor):
 
         opCode = f"{operationType}.{opCodeMap[bi.OpCode]}"
 
-        if operationType == "i32" and bi.OpCode not in {
-            LinearIR.OpCode.ADD,
-            LinearIR.OpCode.SUB,
-            LinearIR.OpCode.MUL,
+        # Only division and ordering depend on the signedness
+        if operationType == "i32" and bi.OpCode in {
+            LinearIR.OpCode.DIV,
+            LinearIR.OpCode.CMP_LT,
+            LinearIR.OpCode.CMP_GT,
         }:
             if unsigned:
                 opCode += "_u"
